@@ -121,7 +121,7 @@ def run(ctx):
     res.extra["registration_interleavings"] = sum(o["cases"] for o in oouts)
     # a peer that stops reading while it is owed a long reply must not stall anybody else (W8 of the storm engine)
     from .. import storm
-    sjobs = [(binary, hooks, s, 0, None, None, 3 if ctx.quick else 20, ctx.quick, ["stall"]) for s in ctx.seeds(4, "c05stall")]
+    sjobs = [(binary, hooks, s, 0, None, None, 3 if ctx.quick else 20, ctx.quick, ["stall", "quitflood", "stall"]) for s in ctx.seeds(4, "c05stall")]
     with multiprocessing.Pool(4) as pool:
         souts = pool.map(storm.worker, sjobs)
     for o in souts:
